@@ -977,7 +977,10 @@ func (e *Engine) indexCheck(idx *Term, it types.Type, n int) (k int, conc bool) 
 		return int(i), true
 	}
 	lo := e.binop(token.GEQ, it, idx, e.mkInt(it, 0), nil).(*Term)
-	hi := e.binop(token.LSS, it, idx, e.mkInt(it, int64(n)), nil).(*Term)
+	hi := e.tt.Bool(true)
+	if w, signed, _ := e.intInfo(it); (signed && (w >= 63 || int64(n) < int64(1)<<uint(w-1))) || (!signed && (w >= 63 || int64(n) < int64(1)<<uint(w))) {
+		hi = e.binop(token.LSS, it, idx, e.mkInt(it, int64(n)), nil).(*Term)
+	}
 	in := e.tt.And(lo, hi)
 	if !e.branch(in) {
 		e.rtPanic(fmt.Sprintf("index out of range [symbolic] with length %d", n))
